@@ -23,7 +23,7 @@ RULE = (
     "text, '' when empty) and every <item> (the library's Item must wrap an element equal to it) in "
     "document order; script = stripped text of each <p> whose text is non-empty after stripping and "
     "not wrapped in () or <>; RunningOrder.script / body = concatenation over stories in running "
-    "order.  Non-trivial = >= 2 stories and at least one filtered paragraph kind (empty / whitespace / "
+    "order; in histories, Story objects kept from the previous state and read again after the merge describe their (still present) element as it is now.  Non-trivial = >= 2 stories and at least one filtered paragraph kind (empty / whitespace / "
     "bracketed) present.")
 ASSUMPTIONS = ['<p> elements have no child elements (stated exclusion)']
 MANDATORY = ['filtered:empty', 'filtered:whitespace', 'filtered:round', 'filtered:angle',
@@ -139,10 +139,45 @@ def check_message_stories(mo):
     return fails
 
 
+_KEPT = {'ro': None, 'stories': []}
+
+
+def check_kept(ro):
+    """Story objects taken from ro.stories (and read) after the previous step of the same live
+    running order: where the element they wrap is still in the running order, they must
+    describe it as it is now."""
+    fails = []
+    kept, _KEPT['stories'] = (_KEPT['stories'] if _KEPT['ro'] is ro else []), []
+    _KEPT['ro'] = ro
+    rc = ro.xml.find('roCreate')
+    live = {id(c): c for c in rc if c.tag == 'story'} if rc is not None else {}
+    for st_ in kept:
+        x = live.get(id(st_.xml))
+        if x is None or x is not st_.xml:
+            continue
+        ok, v = call(st_, 'script', fails, PROP, 'kept Story')
+        if ok and v != access.x_script(x):
+            fails.append(Failure(PROP, 'C17|kept-Story.script|stale', f'a Story object kept across a merge: '
+                                 f'script {v!r}, its element now says {access.x_script(x)!r}', access.x_script(x), v))
+        ok, v = call(st_, 'body', fails, PROP, 'kept Story')
+        if ok and not _body_eq(v, access.x_body(x)):
+            fails.append(Failure(PROP, 'C17|kept-Story.body|stale', f'a Story object kept across a merge: body '
+                                 f'{_showlib(v)}, its element now says {_show(access.x_body(x))}'))
+    try:
+        _KEPT['stories'] = list(ro.stories)
+        for st_ in _KEPT['stories']:
+            st_.script, st_.body
+    except Exception:
+        _KEPT['stories'] = []
+    return fails
+
+
 def judge(ev):
     if ev.obs.ro is None:
         return []
     fails = check(ev.obs.ro)
+    if 'history' in ev.case:
+        fails += check_kept(ev.obs.ro)
     if ev.obs.msg is not None:
         fails += check_message_stories(ev.obs.msg)
     return fails
